@@ -1001,9 +1001,18 @@ class state_machine_base : public FrontEnd
     };
 
 
+    // Clears the processing flag also when an entry behaviour throws,
+    // otherwise every later event would be deferred forever.
+    struct entry_processing_guard
+    {
+        ~entry_processing_guard() { flag = false; }
+        bool& flag;
+    };
+
     template <class Event, class Fsm>
     void on_entry(Event const& event, Fsm& fsm)
     {
+        entry_processing_guard guard{m_event_processing};
         preprocess_entry(event, fsm);
 
         state_entry_visitor<Event> visitor{self(), event};
@@ -1015,6 +1024,7 @@ class state_machine_base : public FrontEnd
     template <class TargetStates, class Event, class Fsm>
     void on_explicit_entry(Event const& event, Fsm& fsm)
     {
+        entry_processing_guard guard{m_event_processing};
         preprocess_entry(event, fsm);
 
         using state_identities =
